@@ -1,6 +1,5 @@
 import McpModel.Base.Proto
-import McpModel.TypedTool.GoTy
-import McpModel.TypedTool.Registry
+import McpModel.TypedTool.Monitor
 /-!
 Driver for E12 TypedTool (C16).
 
@@ -32,6 +31,12 @@ decoding of the validated member of EXACTLY its JSON name but does hold that of 
 member gives the clause `handler_sees_exactly_validated_members` (with the member's path). Disagreements between `jsonschema-go` (fields `lib`/`olib`,
 computed by the harness on exactly decoded values) and the reference validator are reported with the
 clause prefix `LIBDISC` and excluded from the verdict.
+
+This file is the STRING LAYER only: JSON text and token parsers, the renderer of the model observation,
+the clause texts. A record is parsed into a typed event and a typed observation and handed to the typed
+core in `Monitor.lean` (`MState.regTool`, `MState.callee`, `mkCall`, `modelCall`, `judgeCall`/`monitor`),
+which `Bridge.lean` (no false alarm on the model's own observations) and `Sound.lean` (a clause that fires
+refutes the property's clause) reason about.
 -/
 namespace TypedTool
 open Proto
@@ -170,10 +175,6 @@ def parseXJson (tok : String) : Option JVal :=
 
 /-! ### JVal → canonical token -/
 
-def stripZeros : Nat → Int → Nat × Int
-  | 0, m => (0, m)
-  | e + 1, m => if m % 10 = 0 then stripZeros e (m / 10) else (e + 1, m)
-
 def showDec (d : Dec) : String :=
   let (e, m) := stripZeros d.e d.m
   if e = 0 then s!"{m}" else s!"{m}e-{e}"
@@ -260,90 +261,7 @@ partial def goTyOfJ : JVal → Option GoTy
       | _ => none).map .struct
   | _ => none
 
-/-! ### engine -/
-
-/-- A registered tool: its Go types, its OWN schemas (what the monitor judges by) and the schemas the
-registration model says it enforces (what the model observation is computed from). -/
-structure ToolD where
-  ity : GoTy
-  oty : GoTy
-  isch : Schema
-  osch : Option Schema
-  eisch : Schema
-  eosch : Option Schema
-
-def rootObject (s : Schema) : Bool := match s.leaf.ty with | [.object] => true | _ => false
-
-def ToolD.elemZero (d : ToolD) : Option JVal := match d.oty with | .ptr t => some (zeroJ t) | _ => none
-
-/-- the tool as declared -/
-def ToolD.tool (d : ToolD) : Tool Schema :=
-  { inSchema := d.isch
-    outSchema := d.osch
-    outRootObject := match d.osch with | some s => rootObject s | none => false
-    elemZero := d.elemZero
-    decodeIn := project d.ity }
-
-/-- the tool as registered (`Entry.tool`) -/
-def ToolD.enforced (d : ToolD) : Tool Schema :=
-  Entry.tool { pubIn := d.isch, enfIn := d.eisch, pubOut := d.osch, enfOut := d.eosch } rootObject d.elemZero (project d.ity)
-
-structure DState where
-  world : World String Schema := {}
-  /-- Go types and OWN schemas (`Decl.ownIn`/`Decl.ownOut`) of the current server's tools -/
-  tys : List (String × GoTy × GoTy × Schema × Option Schema) := []
-  last : Option String := none
-
-def objectSchema : Schema := .mk { ty := [.object] } [] none none
-
-/-! ### schema equality (what tools/list advertises against the tool's own schema) -/
-
-def optEqv (a b : Option JVal) : Bool :=
-  match a, b with
-  | none, none => true
-  | some x, some y => x.eqv y
-  | _, _ => false
-
-def optDecEq (a b : Option Dec) : Bool :=
-  match a, b with
-  | none, none => true
-  | some x, some y => x.eq y
-  | _, _ => false
-
-def leafSame (a b : Leaf) : Bool :=
-  a.ty == b.ty &&
-  (match a.enum, b.enum with
-   | none, none => true
-   | some x, some y => x.length == y.length && (x.zip y).all (fun p => p.1.eqv p.2)
-   | _, _ => false) &&
-  optEqv a.const b.const && optDecEq a.minimum b.minimum && optDecEq a.maximum b.maximum &&
-  a.minLength == b.minLength && a.maxLength == b.maxLength && a.required == b.required &&
-  a.apFalse == b.apFalse && optEqv a.dflt b.dflt
-
-def isAnySchema : Schema → Bool
-  | .mk c ps ap items =>
-    c.ty.isEmpty && c.enum.isNone && c.const.isNone && c.minimum.isNone && c.maximum.isNone && c.minLength.isNone &&
-    c.maxLength.isNone && c.required.isEmpty && !c.apFalse && c.dflt.isNone && ps.isEmpty && ap.isNone && items.isNone
-
-def lookupP (k : String) : Props → Option Schema
-  | [] => none
-  | (k', s) :: t => if k' = k then some s else lookupP k t
-
-/-- same schema: keywords by value, `properties` as a map, an absent subschema = the empty schema -/
-partial def sameSchema : Schema → Schema → Bool
-  | .mk c1 p1 a1 i1, .mk c2 p2 a2 i2 =>
-    leafSame c1 c2 && p1.length == p2.length &&
-    p1.all (fun kv => match lookupP kv.1 p2 with | some s2 => sameSchema kv.2 s2 | none => false) &&
-    sameOpt a1 a2 && sameOpt i1 i2
-where
-  sameOpt (a b : Option Schema) : Bool :=
-    let norm (o : Option Schema) : Option Schema := match o with
-      | some s => if isAnySchema s then none else some s
-      | none => none
-    match norm a, norm b with
-    | none, none => true
-    | some x, some y => sameSchema x y
-    | _, _ => false
+/-! ### tokens -/
 
 def kv (tok : String) : Option (String × String) :=
   match tok.splitOn "=" with
@@ -369,82 +287,6 @@ def render (o : Outcome) (lib olib : String) : String :=
   s!"inv={if o.seen.isSome then 1 else 0} seen={showOpt o.seen} res={showKind o.kind} sc={showOpt o.structured} content={showBlocks o.content} lib={lib} olib={olib}"
 
 def vi (b : Bool) : String := if b then "v" else "i"
-
-partial def hasBig : JVal → Bool
-  | .num d => d.isInt && d.toInt.natAbs > two53.natAbs
-  | .arr xs => xs.any hasBig
-  | .obj fs => fs.any (fun kv => hasBig kv.2)
-  | _ => false
-
-/-- holds an integer of (MaxInt64, MaxUint64]: a value only an unsigned member takes -/
-partial def hasU64 : JVal → Bool
-  | .num d => d.isInt && decide (two63 ≤ d.toInt) && decide (d.toInt < two64)
-  | .arr xs => xs.any hasU64
-  | .obj fs => fs.any (fun kv => hasU64 kv.2)
-  | _ => false
-
-def idEnv : Env Schema := refEnv id
-
-structure CallIn where
-  args : Args
-  h : JVal → HRet
-  hout : Option JVal      -- JSON of the handler's output (exact), when it is a JSON value
-  argsNull : Bool
-
-def parseCall (d : ToolD) (toks : List String) : Option CallIn := do
-  let a ← getKV toks "args"
-  let o ← getKV toks "out"
-  let c ← getKV toks "content"
-  let e ← getKV toks "herr"
-  let args ← if a == "absent" then some Args.absent else (parseXJson a).map Args.val
-  let (out, hout) ← if o == "nilptr" then some (OutVal.nilPtr, none)
-    else if o == "nilany" then some (OutVal.nilAny, none)
-    else do
-      let raw ← parseXJson o
-      -- the JSON of the value the handler returns: reported by the harness (`hout=`, encoding/json's
-      -- rendering of the Out value it builds; with anyx=1 the `any` positions hold int64/uint64), else
-      -- (older recorded streams) the round trip of `out=` through the Out type
-      let j ← match getKV toks "hout" with
-        | some h => parseXJson h
-        | none => project d.oty raw
-      -- a JSON null decoded into `any` is the nil interface
-      match d.oty, j with
-      | .any, .null => some (OutVal.nilAny, none)
-      | .ptr _, .null => some (OutVal.nilPtr, none)   -- and into a pointer, the typed nil
-      | _, _ => some (OutVal.json j, some j)
-  let content ← match c with
-    | "n" => some none
-    | "N" => some none
-    | "0" => some (some [])
-    | "1" => some (some [Block.text "c0"])
-    | "2" => some (some [Block.text "c0", Block.text "c1"])
-    | _ => none
-  let herr ← match e with
-    | "0" => some none | "1" => some (some HErr.plain) | "2" => some (some HErr.rpc) | _ => none
-  some { args, h := fun _ => { err := herr, content, out }, hout,
-         argsNull := match args with | .val .null => true | _ => false }
-
-/-- the fields of an implementation observation -/
-structure Obs where
-  inv : String
-  seen : String
-  res : String
-  sc : String
-  content : String
-  lib : String
-  olib : String
-
-def parseObs (impl : String) : Option Obs := do
-  let toks := words impl
-  some { inv := ← getKV toks "inv", seen := ← getKV toks "seen", res := ← getKV toks "res", sc := ← getKV toks "sc",
-         content := ← getKV toks "content", lib := ← getKV toks "lib", olib := ← getKV toks "olib" }
-
-def obsOf (o : Outcome) : Obs :=
-  { inv := if o.seen.isSome then "1" else "0", seen := showOpt o.seen, res := showKind o.kind,
-    sc := showOpt o.structured, content := showBlocks o.content, lib := "", olib := "" }
-
-def sameObs (a b : Obs) : Bool :=
-  a.inv == b.inv && a.seen == b.seen && a.res == b.res && a.sc == b.sc && a.content == b.content
 
 /-! ### canonical token → JVal (the handler's observed input, for the member-wise clause) -/
 
@@ -504,129 +346,101 @@ def parseCanonTok (tok : String) : Option JVal :=
   | some (v, []) => some v
   | _ => none
 
-/-- A struct member (path) of the handler's observed input `seen` that does NOT hold the decoding of the
-member of exactly its name in the validated object `d` (`handler_sees_exactly_validated_members`), but
-does hold the decoding of a differently spelled member of `d`. -/
-partial def blameMember (t : GoTy) (d seen : JVal) : Option String :=
-  match t, d, seen with
-  | .ptr t', d, s => blameMember t' d s
-  | .struct fs, .obj kvs, .obj out =>
-    fs.findSome? fun (n, oe, ty) =>
-      match fieldDecode ty kvs n with
-      | none => none
-      | some y =>
-        let got := lookupJ n out
-        if showOpt (fieldShown oe ty y) == showOpt got then none else
-        let inner := match lookupJ n kvs, got with
-          | some dv, some gv => blameMember ty dv gv
-          | _, _ => none
-        match inner with
-        | some p => some (n ++ "." ++ p)
-        | none =>
-          if kvs.any (fun kv => kv.1 != n &&
-                (match project ty kv.2 with
-                 | some z => showOpt (fieldShown oe ty z) == showOpt got
-                 | none => false))
-          then some n else none
-  | _, _, _ => none
+/-! ### records → typed events and observations (`Monitor.lean`) -/
 
-/-- an integer a Go integer type holds (int64 or uint64) and float64 does not necessarily -/
-def bigGoInt (d : Dec) : Bool :=
-  d.isInt && decide (-two63 ≤ d.toInt) && decide (d.toInt < two64) && decide (d.toInt.natAbs > two53.natAbs)
+def parseCallEv (toks : List String) : Option CallEv := do
+  let a ← getKV toks "args"
+  let o ← getKV toks "out"
+  let c ← getKV toks "content"
+  let e ← getKV toks "herr"
+  let args ← if a == "absent" then some Args.absent else (parseXJson a).map Args.val
+  let out ← if o == "nilptr" then some OutSpec.nilPtr
+    else if o == "nilany" then some OutSpec.nilAny
+    else do
+      let raw ← parseXJson o
+      match getKV toks "hout" with
+      | some h => (parseXJson h).map fun j => OutSpec.json raw (some j)
+      | none => some (OutSpec.json raw none)
+  let content ← match c with
+    | "n" => some none
+    | "N" => some none
+    | "0" => some (some [])
+    | "1" => some (some [Block.text "c0"])
+    | "2" => some (some [Block.text "c0", Block.text "c1"])
+    | _ => none
+  let herr ← match e with
+    | "0" => some none | "1" => some (some HErr.plain) | "2" => some (some HErr.rpc) | _ => none
+  some { args, out, content, herr }
 
-/-- the first place where `got` holds a different number than `want` holds there, `want`'s being an
-integer beyond ±2^53 inside [-2^63, 2^64): (path, wanted, got) -/
-partial def numDiff (want got : JVal) : Option (String × Dec × Dec) :=
-  match want, got with
-  | .num a, .num b => if a.eq b || !bigGoInt a then none else some ("", a, b)
-  | .arr xs, .arr ys =>
-    if xs.length != ys.length then none else
-    ((List.range xs.length).zip (xs.zip ys)).findSome? fun (i, x, y) =>
-      (numDiff x y).map fun (p, a, b) => (s!"[{i}]" ++ p, a, b)
-  | .obj xs, .obj ys =>
-    xs.findSome? fun (k, v) =>
-      match lookupJ k ys with
-      | some w => (numDiff v w).map fun (p, a, b) => ((if p.startsWith "[" || p.isEmpty then k ++ p else k ++ "." ++ p), a, b)
-      | none => none
-  | _, _ => none
+def parseOptTok (tok : String) : Option (Option JVal) :=
+  if tok == "-" then some none else (parseCanonTok tok).map some
+
+def parseRes : String → Res
+  | "ok" => .ok | "toolerr" => .toolerr | "rpcerr" => .rpcerr | "panic" => .panic | _ => .other
+
+def parseInv : String → Option Bool
+  | "1" => some true | "0" => some false | _ => none
+
+def parseBTok (tok : String) : BTok :=
+  if tok == "=sc" then .sc else if tok == "err" then .err
+  else if tok.startsWith "t" then
+    match hexToString (tok.drop 1).toString with
+    | some s => .text s
+    | none => .other tok
+  else .other tok
+
+def parseContent (s : String) : List BTok := if s == "-" then [] else (s.splitOn ";").map parseBTok
+
+def parseLib : String → Option Bool
+  | "v" => some true | "i" => some false | _ => none
+
+/-- the fields of an implementation observation -/
+def parseObs (impl : String) : Option (Obs × Option Bool × Option Bool) := do
+  let toks := words impl
+  let o : Obs := { inv := parseInv (← getKV toks "inv"), seen := ← (getKV toks "seen") >>= parseOptTok,
+                   res := parseRes (← getKV toks "res"), sc := ← (getKV toks "sc") >>= parseOptTok,
+                   content := parseContent (← getKV toks "content") }
+  some (o, parseLib (← getKV toks "lib"), parseLib (← getKV toks "olib"))
+
+def showLib : Option Bool → String
+  | some b => vi b
+  | none => "-"
 
 def showPath (p : String) : String := if p.isEmpty then "the value itself" else "member " ++ p
 
 def viaF64 (a b : Dec) : String :=
   if (f64Dec a).eq b then " — the float64 nearest to it" else ""
 
-/-- The C16 monitor: the implementation's observation against the wrapper run with exact numbers. -/
-def monitor (d : ToolD) (ci : CallIn) (o : Obs) : Option String :=
-  let t := d.tool
-  let ideal := call idEnv t ci.h ci.args
-  let io := obsOf ideal
-  let unrep := obsOf (call (refEnv lossy53) t ci.h ci.args)
-  let big := (match ci.args with | .val v => hasBig v | .absent => false) ||
-             (match ci.hout with | some j => hasBig j | none => false)
-  if o.res == "panic" then
-    if ci.argsNull && hasDefaults d.isch then
-      some "C16/F12: tools/call with arguments null on a typed tool whose input schema declares a default panics (assignment to entry in nil map) instead of applying the defaults"
-    else some "C16: the typed tool wrapper panicked"
-  else if t.outSchema.isSome && o.res == "ok" && o.sc == "-" then
-    some "C16/F16: successful result without structured content although an output schema is declared (Out = any, handler returned a nil output)"
-  else if sameObs o io then none
-  else if ci.argsNull && o.seen == "z" && sameObs { o with seen := io.seen } io then
-    some "C16/F12: tools/call with arguments null: the handler observes null (a nil map) instead of the empty object with the schema's defaults"
-  else if big && o.inv == "1" && io.inv == "1" && o.seen != io.seen &&
-      (match defaulted idEnv t.inSchema ci.args, parseCanonTok o.seen with
-       | some dv, some sv => (blameMember d.ity dv sv).isNone | _, _ => true) &&
-      (match ideal.seen, parseCanonTok o.seen with | some w, some g => (numDiff w g).isSome | _, _ => false) then
-    match ideal.seen, parseCanonTok o.seen with
-    | some w, some g =>
-      match numDiff w g with
-      | some (p, a, b) => some s!"C16: handler_receives_exact_integers: the handler received an integer that differs from the one sent ({showPath p} of its input: sent {showDec a}, received {showDec b}{viaF64 a b}); every integer a Go integer type holds, int64 or uint64 — [-2^63, 2^64) — must reach the typed handler unchanged"
-      | none => none
-    | _, _ => none
-  else if big && o.inv == io.inv && o.seen == io.seen && o.res == "ok" && io.res == "ok" && o.sc != io.sc &&
-      (match ideal.structured, parseCanonTok o.sc with | some w, some g => (numDiff w g).isSome | _, _ => false) then
-    match ideal.structured, parseCanonTok o.sc with
-    | some w, some g =>
-      match numDiff w g with
-      | some (p, a, b) => some s!"C16: result_carries_exact_integers: the structured content carries an integer that differs from the one in the handler's output ({showPath p}: output {showDec a}, returned {showDec b}{viaF64 a b}); every integer a Go integer type holds, int64 or uint64 — [-2^63, 2^64) — must come back unchanged"
-      | none => none
-    | _, _ => none
-  else if io.inv == "1" && o.inv == "0" && (match ci.args with | .val v => hasU64 v | .absent => false) &&
-      sameObs o (obsOf (call (refEnv lossy63) t ci.h ci.args)) then
-    some "C16: invoked_iff_valid_after_defaults: arguments valid after defaults (and decodable) but the handler did not run; they hold an integer in (MaxInt64, MaxUint64] — a value of a uint64 member — and the call is answered as by a decode that keeps only int64 exact (the integer re-encoded through float64 fits no Go integer type); the server's decode must keep [-2^63, 2^64) exact"
-  else if big && sameObs o unrep then
-    some "C16/F9: integer with |n| > 2^53 rounded to float64 by applySchema's JSON round trip (handler input, validity verdict or structured content differ from the exact value)"
-  else if o.inv != io.inv then
-    if io.inv == "1" then some "C16: invoked_iff_valid_after_defaults: arguments valid after defaults (and decodable) but the handler did not run"
-    else some "C16: invoked_iff_valid_after_defaults: handler ran on arguments that are invalid after defaults"
-  else if o.seen != io.seen then
-    match (defaulted idEnv t.inSchema ci.args), parseCanonTok o.seen with
-    | some dv, some sv =>
-      match blameMember d.ity dv sv with
-      | some p => some s!"C16: handler_sees_exactly_validated_members: the handler observed for a member of its input a value that differs from the validated (defaulted) argument of that exact name: it holds the value of a differently spelled member, which the schema treated as an additional property and the typed decode must drop (member {p})"
-      | none => some "C16: handler_sees_defaulted_args: the handler observed something other than the defaulted arguments"
-    | _, _ => some "C16: handler_sees_defaulted_args: the handler observed something other than the defaulted arguments"
-  else if io.inv == "0" && (o.res != "toolerr" || o.content == "-" || o.sc != "-") then
-    some "C16: invalid_gives_tool_error_without_invocation: invalid arguments did not produce an isError result with content"
-  else if (match (ci.h .null).out with | .nilPtr => true | _ => false) && (o.res != io.res || o.sc != io.sc) then
-    some "C16: nil_pointer_output_uses_zero_value: a nil pointer output was not treated as the zero value of its element type"
-  else if o.res != io.res then
-    if io.res == "rpcerr" then some "C16: invalid_output_is_error_not_result: output violating the output schema was returned as a result"
-    else if io.res == "ok" then some "C16: structured_valid: schema-valid output was not returned as a successful result"
-    else some "C16: result kind differs from the wrapper's contract"
-  else if o.sc != io.sc then
-    some "C16: structured_equals_output_json_with_defaults: structured content is not the JSON of the output with the schema's defaults"
-  else if o.content != io.content then
-    some "C16: text_fallback_iff_no_content: content is not the handler's content plus the serialized structured content where required"
-  else none
+/-- the clause texts -/
+def Clause.text : Clause → String
+  | .f12Panic => "C16/F12: tools/call with arguments null on a typed tool whose input schema declares a default panics (assignment to entry in nil map) instead of applying the defaults"
+  | .panicked => "C16: the typed tool wrapper panicked"
+  | .f16 => "C16/F16: successful result without structured content although an output schema is declared (Out = any, handler returned a nil output)"
+  | .f12NullSeen => "C16/F12: tools/call with arguments null: the handler observes null (a nil map) instead of the empty object with the schema's defaults"
+  | .recvExact p a b => s!"C16: handler_receives_exact_integers: the handler received an integer that differs from the one sent ({showPath p} of its input: sent {showDec a}, received {showDec b}{viaF64 a b}); every integer a Go integer type holds, int64 or uint64 — [-2^63, 2^64) — must reach the typed handler unchanged"
+  | .carryExact p a b => s!"C16: result_carries_exact_integers: the structured content carries an integer that differs from the one in the handler's output ({showPath p}: output {showDec a}, returned {showDec b}{viaF64 a b}); every integer a Go integer type holds, int64 or uint64 — [-2^63, 2^64) — must come back unchanged"
+  | .u64Refused => "C16: invoked_iff_valid_after_defaults: arguments valid after defaults (and decodable) but the handler did not run; they hold an integer in (MaxInt64, MaxUint64] — a value of a uint64 member — and the call is answered as by a decode that keeps only int64 exact (the integer re-encoded through float64 fits no Go integer type); the server's decode must keep [-2^63, 2^64) exact"
+  | .f9 => "C16/F9: integer with |n| > 2^53 rounded to float64 by applySchema's JSON round trip (handler input, validity verdict or structured content differ from the exact value)"
+  | .notInvoked => "C16: invoked_iff_valid_after_defaults: arguments valid after defaults (and decodable) but the handler did not run"
+  | .invokedInvalid => "C16: invoked_iff_valid_after_defaults: handler ran on arguments that are invalid after defaults"
+  | .members p => s!"C16: handler_sees_exactly_validated_members: the handler observed for a member of its input a value that differs from the validated (defaulted) argument of that exact name: it holds the value of a differently spelled member, which the schema treated as an additional property and the typed decode must drop (member {p})"
+  | .seesDefaulted => "C16: handler_sees_defaulted_args: the handler observed something other than the defaulted arguments"
+  | .invalidNoToolErr => "C16: invalid_gives_tool_error_without_invocation: invalid arguments did not produce an isError result with content"
+  | .nilPtr => "C16: nil_pointer_output_uses_zero_value: a nil pointer output was not treated as the zero value of its element type"
+  | .invalidOutReturned => "C16: invalid_output_is_error_not_result: output violating the output schema was returned as a result"
+  | .validOutRefused => "C16: structured_valid: schema-valid output was not returned as a successful result"
+  | .kindDiffers => "C16: result kind differs from the wrapper's contract"
+  | .scDiffers => "C16: structured_equals_output_json_with_defaults: structured content is not the JSON of the output with the schema's defaults"
+  | .contentDiffers => "C16: text_fallback_iff_no_content: content is not the handler's content plus the serialized structured content where required"
+  | .errContent => "C16: the content of an error differs from the wrapper's contract (a tool error carries one text block, the error message; a protocol error carries no result)"
+  | .pubIn => "C16: published_schema_is_own: tools/list advertises an input schema that is not the tool's own (declared, else inferred from its Go type)"
+  | .pubOut => "C16: published_schema_is_own: tools/list advertises an output schema that is not the tool's own (declared, else inferred from its Go type)"
+  | .libIn a b => s!"LIBDISC: input: jsonschema-go says {vi a}, the reference validator says {vi b}"
+  | .libOut a b => s!"LIBDISC: output: jsonschema-go says {vi a}, the reference validator says {vi b}"
 
-/-- the `tool` op: the declaration, the inference results for its two Go types, its Go types -/
+/-- the `tool` op with the tokens of the own schemas (for rendering the expected observation) -/
 structure ToolOp where
-  name : String
-  ity : GoTy
-  oty : GoTy
-  decl : Decl String Schema
-  env : RegEnv String Schema
-  /-- the tokens of the own schemas (for rendering the expected observation) -/
+  ev : ToolEv
   ownI : String
   ownO : String
 
@@ -660,16 +474,30 @@ def parseToolOp (rest : List String) : Option ToolOp := do
   let objTok := "x" ++ stringToHex "{\"type\":\"object\"}"
   let ownI := if gi.isSome then (getKV rest "isch").getD "?" else if inAny then objTok else (getKV rest "ider").getD "?"
   let ownO := if go.isSome then (getKV rest "osch").getD "?" else if outAny then "-" else (getKV rest "oder").getD "?"
-  some { name := (getKV rest "name").getD "t", ity, oty, env, ownI, ownO
-         decl := { inKey := ikey, inAny, inGiven := gi, outKey := okey, outAny, outGiven := go } }
+  some { ev := { name := (getKV rest "name").getD "t", ity, oty, env,
+                 decl := { inKey := ikey, inAny, inGiven := gi, outKey := okey, outAny, outGiven := go } },
+         ownI, ownO }
 
-def DState.toolD (d : DState) (name : String) : Option ToolD :=
-  match d.world.tools.find? (·.1 == name), d.tys.find? (·.1 == name) with
-  | some (_, _, e), some (_, ity, oty, isch, osch) =>
-    some { ity, oty, isch, osch, eisch := e.enfIn, eosch := e.enfOut }
-  | _, _ => none
+/-- what tools/list advertised, as the `tool` record reports it -/
+def parseToolObs (impl : String) : ToolObs :=
+  if !impl.startsWith "ok" then .other else
+  let itoks := words impl
+  let pubI := (getKV itoks "pi") >>= parseXJson >>= schemaOfJ
+  let pubO : Option (Option Schema) := match getKV itoks "po" with
+    | some "-" => some none
+    | some tk => (parseXJson tk >>= schemaOfJ).map some
+    | none => none
+  .ok pubI pubO
 
-def engine : Engine DState where
+/-- run-time self-check of the string layer: the model observation, printed and read back, is the typed
+observation the bridge theorem speaks about (`Bridge.lean`): on a record answered `A` the monitor ran on
+exactly `obsOf (modelCall …)` -/
+def roundTrips (model : String) (rep : Outcome) (lib olib : Option Bool) : Bool :=
+  match parseObs model with
+  | some (o, l, ol) => sameObs o (obsOf rep) && l == lib && ol == olib
+  | none => false
+
+def engine : Engine MState where
   init := {}
   step d toks impl :=
     match toks with
@@ -680,74 +508,38 @@ def engine : Engine DState where
       | none => (d, { model := "bad-op" })
     | "server" :: rest =>
       match (getKV rest "cache") >>= String.toNat? with
-      | some n => ({ world := d.world.step (refReg) (.server (if n == 0 then none else some n)), tys := [], last := none },
-                   { model := "ok" })
+      | some n => (d.server n, { model := "ok" })
       | none => (d, { model := "bad-op" })
     | "tool" :: rest =>
       match parseToolOp rest with
       | none => (d, { model := "bad-op" })
       | some t =>
-        match (register t.env d.world.cacheOf t.decl).1 with
-        | none =>
-          -- AddTool must reject exactly the declared schemas with a default that is invalid for its own
-          -- subschema; the cache keeps what the input side stored
-          ({ d with world := d.world.step t.env (.add t.name t.decl) }, { model := "addtool-error" })
-        | some _ =>
-          let w := d.world.step t.env (.add t.name t.decl)
-          let d' : DState :=
-            if impl.startsWith "ok" then
-              { world := w, tys := (t.name, t.ity, t.oty, t.decl.ownIn t.env, t.decl.ownOut t.env) :: d.tys.filter (·.1 != t.name), last := some t.name }
-            else { d with world := { w with tools := w.tools.filter (·.1 != t.name) }, tys := d.tys.filter (·.1 != t.name) }
-          let expected := s!"ok pi={t.ownI} po={t.ownO}"
-          if !impl.startsWith "ok" then (d', { model := expected }) else
-          -- what tools/list advertises must be the tool's own schemas
-          let itoks := words impl
-          let pubI := (getKV itoks "pi") >>= parseXJson >>= schemaOfJ
-          let pubO : Option (Option Schema) := match getKV itoks "po" with
-            | some "-" => some none
-            | some tk => (parseXJson tk >>= schemaOfJ).map some
-            | none => none
-          let okI := match pubI with | some p => sameSchema p (t.decl.ownIn t.env) | none => false
-          let okO := match pubO, t.decl.ownOut t.env with
-            | some none, none => true
-            | some (some p), some o => sameSchema p o
-            | _, _ => false
-          if okI && okO then (d', { model := impl })
-          else (d', { model := expected,
-                      violated := some (if okI then "C16: published_schema_is_own: tools/list advertises an output schema that is not the tool's own (declared, else inferred from its Go type)"
-                                        else "C16: published_schema_is_own: tools/list advertises an input schema that is not the tool's own (declared, else inferred from its Go type)") })
+        let expected := s!"ok pi={t.ownI} po={t.ownO}"
+        match d.regTool t.ev (parseToolObs impl) with
+        | (d', .addErr) => (d', { model := "addtool-error" })
+        | (d', .accept) => (d', { model := impl })
+        | (d', .expected v) => (d', { model := expected, violated := v.map Clause.text })
     | "call" :: rest =>
-      match ((getKV rest "tool") <|> d.last) >>= d.toolD with
+      match d.callee (getKV rest "tool") with
       | none => (d, { model := "no-tool" })
       | some td =>
-        match parseCall td rest with
+        match (parseCallEv rest) >>= mkCall td with
         | none => (d, { model := "bad-op" })
         | some ci =>
-          let t := td.tool
-          let rep := call (refEnv lossy64) td.enforced ci.h ci.args
+          let rep := modelCall td ci
           -- the reference validator's own verdicts, on exact values
-          let lib := match argsMap ci.args with
-            | some m => vi (valid td.isch (fill td.isch m))
-            | none => "-"
-          let olib := match rep.seen, (ci.h .null).err, ci.hout <|> (match (ci.h .null).out with | .nilPtr => t.elemZero | .nilAny => some .null | _ => none), td.osch with
-            | some _, none, some j, some s => vi (valid s (outForm idealEnv' t s j).1)
-            | _, _, _, _ => "-"
-          let model := render rep lib olib
+          let lib := libIn td ci
+          let olib := libOut td ci
+          let model := render rep (showLib lib) (showLib olib)
+          if !roundTrips model rep lib olib then (d, { model := "selfcheck-failed " ++ model }) else
           match parseObs impl with
           | none => (d, { model := model })
-          | some o =>
-            let disc (a b : String) : Bool := (a == "v" || a == "i") && (b == "v" || b == "i") && a != b
-            if disc o.lib lib then
-              (d, { model := impl, violated := some s!"LIBDISC: input: jsonschema-go says {o.lib}, the reference validator says {lib}" })
-            else if disc o.olib olib then
-              (d, { model := impl, violated := some s!"LIBDISC: output: jsonschema-go says {o.olib}, the reference validator says {olib}" })
-            else
-              (d, { model := model, violated := monitor td ci o })
+          | some (o, l, ol) =>
+            match judgeCall td ci o l ol with
+            | some (.libIn a b) => (d, { model := impl, violated := some (Clause.text (.libIn a b)) })
+            | some (.libOut a b) => (d, { model := impl, violated := some (Clause.text (.libOut a b)) })
+            | v => (d, { model := model, violated := v.map Clause.text })
     | _ => (d, { model := "bad-op" })
-where
-  idealEnv' : Env Schema := refEnv id
-  /-- `server` steps do not consult the environment -/
-  refReg : RegEnv String Schema := { derive := fun _ => objectSchema, resolves := defaultsValid, objectSchema := objectSchema }
 
 end TypedTool
 
